@@ -197,6 +197,9 @@ def pipeline(kind, tier):
         for tag, sf, extra in parts:
             rv = replay_and_validate(kind, work, sf, tag, extra)
             runs += rv["summary"]["runs"]
+            if rv["summary"].get("of", rv["summary"]["runs"]) != rv["summary"]["runs"]:
+                log("[%s] harness stopped after %d of %d schedules (%s): %d runs ended in a spin or a panic" % (
+                    kind, rv["summary"]["runs"], rv["summary"]["of"], tag, rv["summary"].get("dead", 0)))
             events += rv["summary"]["events"]
             wall_b += rv["wall_b"]
             wall_a += rv["wall_a"]
